@@ -88,6 +88,7 @@ type imp struct {
 // the property statements against the code; every line names the clause it serves).
 var propImports = map[string][]imp{
 	"C01": {
+		{"C01.20/websocket-configuration", "C15", "a message at the receive limit is delivered over ws/wss whatever its bytes are: the websocket connection is configured with sub-protocols and TLS material only — with compression negotiated, gorilla's read limit counts the deflated frame, which for incompressible content is larger than the message", []string{"C15.14/std-config-fields|websocket"}},
 		{"C01.19/one-transmission-per-connection", "C04", "a connection carries one request at a time: a pipe is in REQ's ready list only while it is idle, and only the scheduler, the end of a transmission, attach and detach change that list (two transmissions on one stream interleave their frames on transports that write a frame in several pieces)", []string{"C04.6/pipe-loss|readyQ-writers"}},
 		{"C01.18/core-passes-on", "C16", "the core hands on every message the transport delivered: pipe.RecvMsg gives up (and closes the pipe) only when the transport's Recv failed, so the receive limit that applies is the endpoint's own", []string{"C16.4/error-closes-only-that-pipe|pipe.RecvMsg"}},
 		{"C01.17/one-delivery-per-context", "C06", "one publication yields one receive per context: the SUB receiver queues a message once for a context however many of its subscriptions match", []string{"C06.2/receiver"}},
